@@ -63,6 +63,18 @@ func init() {
 		var seed int64
 		fmt.Sscanf(strings.Join(a[2:10], " "), "%d %d %d %d %d %d %d %d", &minX, &minY, &w, &pl, &pt, &pr, &pb, &seed)
 		img := mkYCbCr(a[1], minX, minY, w, pl, pt, pr, pb, seed, a[10])
+		// image.YCbCr's chroma offsets divide with truncation toward zero: for some rectangles with negative coordinates and
+		// subsampled chroma the planes NewYCbCr allocates and COffset disagree, and the standard library's own YCbCrAt panics.
+		// Such values are not well-formed images; they are skipped.
+		if p, _, _ := safely(func() {
+			for y := 0; y < w; y++ {
+				for x := 0; x < w; x++ {
+					_ = img.YCbCrAt(minX+x, minY+y)
+				}
+			}
+		}); p {
+			return "stdlib-inconsistent"
+		}
 		yCopy, cbCopy, crCopy := append([]byte{}, img.Y...), append([]byte{}, img.Cb...), append([]byte{}, img.Cr...)
 		guard := 4096
 		n := w * w
@@ -189,6 +201,7 @@ func runC20(c *Ctx) error {
 		case 3:
 			minX, minY = 8*c.Rng.Intn(8), 8*c.Rng.Intn(8)
 		}
+		ratio := ratios[c.Rng.Intn(6)]
 		pad := [4]int{}
 		if c.Rng.Intn(2) == 0 {
 			for k := range pad {
@@ -196,7 +209,7 @@ func runC20(c *Ctx) error {
 			}
 		}
 		bits := []string{"32", "32", "64"}[c.Rng.Intn(3)]
-		jobs = append(jobs, job{fmt.Sprintf("gray %s %s %d %d %d %d %d %d %d %d %s", bits, ratios[c.Rng.Intn(6)], minX, minY, w, pad[0], pad[1], pad[2], pad[3], c.Rng.Int63n(1<<40),
+		jobs = append(jobs, job{fmt.Sprintf("gray %s %s %d %d %d %d %d %d %d %d %s", bits, ratio, minX, minY, w, pad[0], pad[1], pad[2], pad[3], c.Rng.Int63n(1<<40),
 			[]string{"rand", "smooth", "ext"}[c.Rng.Intn(3)])})
 	}
 	ans := make([]string, len(jobs))
@@ -231,6 +244,10 @@ func runC20(c *Ctx) error {
 		}
 		if i%500 == 0 {
 			c.Sample(map[string]string{"op": j.req, "impl": a})
+		}
+		if a == "stdlib-inconsistent" {
+			c.Stat("skipped.stdlib-inconsistent-image")
+			continue
 		}
 		var md, indep float64
 		var can string
